@@ -159,7 +159,7 @@ const Prelude = `
 (declare-const str_empty Str)
 (assert (= (str_len str_empty) 0))
 (assert (forall ((s Str)) (! (= (str_sub s 0 (str_len s)) s) :pattern ((str_sub s 0 (str_len s))))))
-(assert (forall ((s Str)) (! (and (>= (str_len s) 0) (<= (str_len s) 72057594037927936)) :pattern ((str_len s)))))
+(assert (forall ((s Str)) (! (and (>= (str_len s) 0) (<= (str_len s) 72057594037927936) (=> (= (str_len s) 0) (= s str_empty))) :pattern ((str_len s)))))
 (declare-fun saddr (Slice Int) Ref)
 (assert (forall ((s Slice) (i Int)) (! (= (saddr s i) (elem (sarr s) (+ (soff s) i))) :pattern ((saddr s i)))))
 (define-fun wfslice ((s Slice)) Bool (and (<= 0 (soff s)) (<= 0 (slen s)) (<= (slen s) (scap s)) (<= (scap s) 72057594037927936) (<= (soff s) 72057594037927936) (=> (= (sarr s) nil) (= (scap s) 0))))
